@@ -1,6 +1,12 @@
 use std::fmt;
+#[cfg(not(nexosim_verif))]
 use std::sync::atomic::{AtomicBool, Ordering};
+#[cfg(nexosim_verif)]
+use crate::verif::sync::atomic::{AtomicBool, Ordering};
+#[cfg(not(nexosim_verif))]
 use std::sync::{Arc, Mutex, TryLockError, TryLockResult};
+#[cfg(nexosim_verif)]
+use crate::verif::sync::{Arc, Mutex, TryLockError, TryLockResult};
 
 use super::{EventSink, EventSinkStream, EventSinkWriter};
 
